@@ -145,8 +145,9 @@ def _bar2musicxml(bar):
             note_cont = [None]
         for n in note_cont:
             note = _note2musicxml(n)
-            if is_chord:
-                note.appendChild(chord)
+            if is_chord and n is not note_cont[0]:
+                # every chord note after the first is marked as sounding with the previous one
+                note.appendChild(doc.createElement("chord"))
 
             # convert the duration of the note
             duration = doc.createElement("duration")
@@ -154,9 +155,8 @@ def _bar2musicxml(bar):
             note.appendChild(duration)
 
             # check for dots
-            dot = doc.createElement("dot")
             for i in range(0, time[1]):
-                note.appendChild(dot)
+                note.appendChild(doc.createElement("dot"))
             if beat in value.musicxml:
                 type_node = doc.createElement("type")
                 type_node.appendChild(doc.createTextNode(value.musicxml[beat]))
